@@ -2,12 +2,12 @@
 (***************************************************************************)
 (* Add Sub Mul Div, Equal Greater GreaterOrEqual Less LessOrEqual,         *)
 (* And Or Xor with ONNX multidirectional broadcasting (C03).               *)
-(* Element convention: records of Values.tla (X(n) for small integers),    *)
+(* Element convention: records of Values.tla (Fin(n) for small integers),    *)
 (* TLA+ booleans for bool tensors.                                         *)
 (***************************************************************************)
 EXTENDS Attrs
 
-\* printing: lower X(n) to the bare integer n (JSON gets shorter; the harness reads both)
+\* printing: lower Fin(n) to the bare integer n (JSON gets shorter; the harness reads both)
 LowerE(x) == IF x.c = "fin" /\ x.d = 1 THEN x.n ELSE x
 LowerT(t) == IF t.dt = "bool" THEN t ELSE [t EXCEPT !.data = [i \in 1..Len(t.data) |-> LowerE(t.data[i])]]
 LowerA(a) == [a EXCEPT !.value = [i \in 1..Len(a.value) |-> LowerT(a.value[i])]]
